@@ -8,10 +8,10 @@ Shared geometry of a Frame at `size = (maxcol, maxrow)` and focus flag `f`:
     header occupies rows [0, htrim), body rows [htrim, maxrow - ftrim), footer rows [maxrow - ftrim, maxrow).
 Fit precondition of the C09 statement for a Frame: hrows + frows < maxrow (nobody clipped, the body has a row).
 
-"Has a header" is what the code tests: `if self.header:` in frame_top_bottom / _contents_keys / __iter__ (truthiness: a
-container widget with no children, e.g. `Pile([])` or `GridFlow([], ...)`, is falsy through `__len__`) versus
-`self.header is not None` in keypress and in the focus_position setter.  Truthiness of an opaque widget is therefore an
-uninterpreted predicate here, not the constant True."""
+"Has a header" means `header is not None`.  Before fix: commits 0b8920a / 8133c61 the code tested `if self.header:` in
+frame_top_bottom / _contents_keys / __iter__ (truthiness: a container widget with no children, e.g. `Pile([])` or
+`GridFlow([], ...)`, is falsy through `__len__`) but `is not None` in keypress and the focus_position setter.
+Truthiness of an opaque widget stays an uninterpreted predicate here, not the constant True, so that slip is visible."""
 import z3
 
 from pyvc import shapes as S
@@ -53,9 +53,10 @@ def has_part(s, part):
     if part == "body":
         return True
     w = part_widget(s, part)
-    if is_none(w):
-        return False
-    return widget_truthy(cur(), val(w))
+    # a part exists when it is not None -- whatever bool(widget) says (an empty Pile / GridFlow is falsy through
+    # __len__): truthiness stays an uninterpreted predicate, so code that tests `if self.header:` instead of
+    # `is not None` again fails these contracts (it did, before fix: commits 0b8920a / 8133c61)
+    return not is_none(w)
 
 
 def frame_inv(s):
@@ -165,7 +166,7 @@ class frame_fp_set:
     def ensures(old, s, a, result):
         yield "was-a-part-that-exists", neg(_invalid_part(old, a.part))
         # the statement's "valid position" is a key of .contents (what contents[...], __iter__ and get_focus_path go by)
-        # FAILS-ON-TREE: Frame(SolidFill(), header=Pile([])).focus_position = 'header' is accepted although
+        # failed before the fix: commits 0b8920a..a81aaaf: Frame(SolidFill(), header=Pile([])).focus_position = 'header' is accepted although
         #   'header' is not a key of .contents (empty containers are falsy; _contents_keys tests truthiness, the setter `is None`)
         yield "position-is-a-key-of-contents", has_part(old, a.part)
         yield "focus-is-that-part", eq(s.focus_part, a.part)
@@ -365,8 +366,8 @@ class frame_init:
 
     def ensures(old, s, a, result):
         yield "parts-stored", both(eq(s._body, a.body), opt_same(s._header, a.header), opt_same(s._footer, a.footer))
-        yield "focus-part-as-asked", eq(s.focus_part, a.focus_part)
-        # C08: the focus position of a new Frame is a part that exists
-        # FAILS-ON-TREE: Frame(SolidFill(), focus_part='header') (no header): focus_position == 'header', focus is None,
-        #   contents['header'] -> KeyError, get_cursor_coords((5, 4)) -> AttributeError: 'NoneType' object has no attribute 'selectable'
+        asked_exists = both(implies(a.focus_part == "header", neg(is_none(a.header))), implies(a.focus_part == "footer", neg(is_none(a.footer))))
+        yield "focus-part-as-asked-when-that-part-exists", implies(asked_exists, eq(s.focus_part, a.focus_part))
+        # C08: the focus position of a new Frame is a part that exists (was violated by
+        # Frame(SolidFill(), focus_part='header') before fix a81aaaf)
         yield "focus-position-is-a-part-that-exists", frame_inv(s)
